@@ -25,6 +25,7 @@ pub fn dispatch(prop: &str, ctx: &mut RunCtx<'_>) -> Option<Violation> {
     match prop {
         "C01" => crate::c01::run(ctx),
         "C04" => crate::c04::run(ctx),
+        "C11" => crate::c11::run(ctx),
         "C19" => crate::c04::run_uper(ctx, true),
         other => Some(Violation { signature: format!("HARNESS/unknown-property/{other}"), detail: String::new() }),
     }
@@ -81,6 +82,10 @@ fn now_ms() -> u64 {
     SystemTime::now().duration_since(UNIX_EPOCH).map(|d| d.as_millis() as u64).unwrap_or(0)
 }
 
+pub fn arm_watchdog() {
+    WATCH_STARTED_MS.store(now_ms(), Relaxed);
+}
+
 /// The watchdog reads a clock but never influences a run's events: it only kills a hung worker.
 pub fn start_watchdog(limit_s: u64) {
     std::thread::spawn(move || loop {
@@ -104,6 +109,8 @@ pub struct WorkerArgs {
     pub outcomes_out: Option<String>,
     pub samples: usize,
     pub watchdog_s: u64,
+    /// only hashes with h % hash_sample == 0 are reported (1 = all)
+    pub hash_sample: u64,
 }
 
 pub fn worker(a: &WorkerArgs) -> J {
@@ -135,10 +142,14 @@ pub fn worker(a: &WorkerArgs) -> J {
         chunk_hash.u64(out.event_hash);
         steps += out.steps;
         draws += out.draws;
-        shapes.insert(out.shape_hash);
+        if out.shape_hash % a.hash_sample == 0 {
+            shapes.insert(out.shape_hash);
+        }
         if out.nontrivial {
             nontrivial += 1;
-            distinct.insert(out.event_hash);
+            if out.event_hash % a.hash_sample == 0 {
+                distinct.insert(out.event_hash);
+            }
         }
         if want_sample && out.violation.is_none() {
             samples.push(
